@@ -54,6 +54,16 @@ Theorem C18_checked_closed_exits_zero : forall pick fuel f s p p' md,
   co_exit (cli pick fuel f (Some s)) = 0 /\ co_trace (cli pick fuel f (Some s)) = false /\ co_diags (cli pick fuel f (Some s)) = 0.
 Proof. exact cli_checked_exits_zero. Qed.
 
+(* FINAL FORM: a parsed, checked, closed program run in whichever mode the flags select exits with status 0, prints no
+   diagnostic and no Go panic trace, under every schedule - no further premise (C01_safety_all_modes_parsed).  Together
+   with C18_exit_zero_iff and C18_error_is_reported this is the whole of "exit status 0 iff parsing succeeded and
+   typechecking succeeded or was skipped" for closed programs that ARE checked; unchecked and open programs are F19. *)
+Theorem C18_checked_closed_program_exits_zero : forall pick fuel f s p p' md,
+  parse_string s = POk p -> typecheck_on f = true -> typecheck p = Accept p' ->
+  run_mode f = Some md -> in_fragment p' ->
+  co_exit (cli pick fuel f (Some s)) = 0 /\ co_trace (cli pick fuel f (Some s)) = false /\ co_diags (cli pick fuel f (Some s)) = 0.
+Proof. exact cli_checked_closed_exits_zero. Qed.
+
 (* non-vacuity: a file that runs, one that is rejected, one with a syntax error *)
 Definition fl_default : flags :=
   {| fl_typecheck := true; fl_notypecheck := false; fl_execute := true; fl_noexecute := false; fl_sync := false; fl_async := true |}.
@@ -78,3 +88,4 @@ Print Assumptions C18_no_output_on_failure.
 Print Assumptions C18_trace_only_from_runtime.
 Print Assumptions C18_checked_closed_async_exits_zero.
 Print Assumptions C18_checked_closed_exits_zero.
+Print Assumptions C18_checked_closed_program_exits_zero.
